@@ -621,6 +621,10 @@ def run(db, chk):
            detail="" if not bad else "first failing (pool, range, min size): %r" % (bad[0],))
     chk.count_scenarios(n_cases, True)
 
+    chk.absorb(db, "C08", {"C08-B11"}, "C11-A10", "worker / block indices are never used as an unbounded shift amount "
+               "(flags packed into one word alias beyond its width: two workers share a flag, a block is skipped or "
+               "awaited twice) -- shared with C08-B11", pred=lambda o: "thread_pool" in (o.get("where") or "")
+               or "positive control" in o["instance"], min_instances=1)
     # ---- A9: run_tasks() publishes the task set installed by the preceding set_tasks() ---------------
     from ..effects import Effects as _Eff, fields_of as _fields_of
     chk.rule("C11-A9", "run_tasks() dispatches the task set installed by the set_tasks() that precedes it (C11-A5): "
